@@ -28,11 +28,11 @@ def equals(rng):
 BLANK_IN_END_TAG = {'p': 0.0}       # switched on by C09 for its D2 documents only (open finding: `</div >` is not seen as a tag; the repository's own suite pins that)
 
 
-def end_tag(rng, name, xml):
+def end_tag(rng, name, xml, p_alt=0.08):
     """`</name>`; white space may stand before the `>` (XML: ETag ::= '</' Name S? '>', HTML likewise), and in HTML - not in XML - the name of the
     end tag need not repeat the letter case of the start tag"""
     r = rng.random()
-    if not xml and r < 0.08:
+    if not xml and r < p_alt:
         alt = rng.choice([name.upper(), name.lower(), name.capitalize()])
         name = alt
     return '</' + name + (rng.choice([' ', '\n', '\t ', '  ']) if rng.random() < BLANK_IN_END_TAG['p'] else '') + '>'
@@ -197,7 +197,7 @@ def gen_elem(rng, depth, w, recs, parent, xml, max_depth=4, max_children=3):
             gen_elem(rng, depth + 1, w, recs, rec, xml, max_depth, max_children)
         if rng.random() < 0.5:
             w.add(rng.choice(['', 'text', '\n', 'a < b', '<!-- c -->']))
-    rec['close'] = w.add(end_tag(rng, name, xml))
+    rec['close'] = w.add(end_tag(rng, name, xml, 0.3 if kind == 'special' else 0.08))
     return rec
 
 
